@@ -223,6 +223,12 @@ func derivesFrom(v ssa.Value, pred func(ssa.Value) bool) bool {
 					return true
 				}
 			}
+		case *ssa.MakeMap:
+			for _, r := range refs(x) {
+				if mu, ok := r.(*ssa.MapUpdate); ok && mu.Map == ssa.Value(x) && (walk(mu.Value, d+1) || walk(mu.Key, d+1)) {
+					return true
+				}
+			}
 		case *ssa.Alloc:
 			for _, r := range refs(x) {
 				if st, ok := r.(*ssa.Store); ok && st.Addr == ssa.Value(x) && walk(st.Val, d+1) {
